@@ -11,6 +11,17 @@ import traceback
 from svlib import *  # noqa
 
 
+# Disagreements between a model and the implementation that do not by themselves contradict the property text (the
+# model is one of several behaviours the property allows, or is only sound, not complete).  They are reported, but as a
+# broken correspondence: the VIOLATION line ends with no-failing-input-found unless another part of the same check
+# exhibits a concrete failing input (which is then reported on its own line).
+CORRESPONDENCE_CLASSES = {
+    "compile-term", "ast-not-well-typed", "model-stuck", "model-internal", "model-panic", "peg-model", "acceptance", "typed-ast",
+    "jet-model", "span-model", "generator", "value-print-model", "type-print-model", "module-print-model", "render-model",
+    "ptree-model", "print-model",
+}
+
+
 class Check:
     def __init__(self, pid, tier, seed):
         self.pid = pid
@@ -65,11 +76,16 @@ class Check:
                 self.known_hits.append({"id": f["id"], "what": f["what"]})
             return False
         key = signature.get("class", "") + ":" + hashlib.sha1(json.dumps(replay, sort_keys=True, default=str).encode()).hexdigest()[:12]
-        if len(self.violations) >= 5:
+        corr = signature.get("class") in CORRESPONDENCE_CLASSES
+        no_input = no_input or corr
+        self.count("violations." + str(signature.get("class")))
+        if sum(1 for (_, _, ni) in self.violations if ni == no_input) >= (3 if no_input else 5):
             return True
         os.makedirs(os.path.join(VERIF, "replays"), exist_ok=True)
         path = os.path.join(VERIF, "replays", "%s-%s.json" % (self.pid, key.split(":")[-1]))
         replay = dict(replay)
+        if corr:
+            replay.setdefault("correspondence_broken", signature.get("class"))
         replay.update({"property": self.pid, "class": signature.get("class"), "what": signature.get("what"),
                        "seed": self.seed, "tier": self.tier,
                        "how_to_replay": "./check %s --replay %s" % (self.pid, os.path.relpath(path, VERIF))})
@@ -103,6 +119,13 @@ class Check:
     # ---- finish
     def finish(self, level="proof"):
         wall = time.time() - self.t0
+        if self.proof and not self.proof["ok"] and not any(k.split(":")[0] in ("jet-table", "grammar-shape", "proof-gate") for (k, _, _) in self.violations):
+            # a theorem of this property no longer checks: the property is no longer shown to hold
+            self.violations = self.violations[:7]
+            self.violation({"class": "proof-gate", "what": "%s %s" % (self.proof.get("where", ""), self.proof.get("failure", "")[-200:])},
+                           {"broken": "%s does not check any more (coqc error, an assumption appeared, or forbidden vernacular)" % self.proof["file"],
+                            "theorems": self.proof["theorems"], "forbidden": self.proof["forbidden"], "axioms": self.proof["axioms"],
+                            "detail": self.proof.get("failure", "")[-3000:]}, no_input=True)
         cov = {
             "evaluations": self.evaluations,
             "distinct_nontrivial": len(self.distinct),
